@@ -17,7 +17,8 @@
  *            Z  like S, but ops may carry the marks used to replay the id-after-unlock schedule
  *     progs  callback programs  p0;p1;...   each  -  or a comma list of
  *               R<ms>:<cb>  timer_set_relative     A<sec>.<nsec>:<cb>  timer_set_absolute
- *               K<k>        timer_cancel(highest id returned so far - k)      X<id>  timer_cancel(id)
+ *               K<k>        timer_cancel(number of set calls so far - k)      X<id>  timer_cancel(id)
+ *                           (P mode: the calling worker's last returned id - k)
  *     ops    s<th>:R<ms>:<cb> | s<th>:A<sec>.<nsec>:<cb> | c<th>:K<k> | c<th>:X<id> | t:<sec>.<nsec>
  *            Z only:  h<th>:A<sec>.<nsec>:<cb>  set whose caller is held between the unlock and the
  *                     return (inside pthread_cond_signal);   r<th>  release it and report what it returned
@@ -178,7 +179,9 @@ static long cancel_target(const struct hop *h, int th) {
     long id;
     if (h->kind == 'X') return h->a;
     pthread_mutex_lock(&em);
-    id = ((par_mode && th >= 0) ? th_last[th] : max_id) - h->a;
+    /* S/Z: relative to the number of set calls issued so far (= the id timer.c hands out next-to-last;
+       the caller of a set that expires at once may not have seen its return value yet) */
+    id = ((par_mode && th >= 0) ? th_last[th] : par_mode ? max_id : (long) nseq) - h->a;
     pthread_mutex_unlock(&em);
     return id;
 }
